@@ -7,10 +7,10 @@ package main
 //                 that the writing function did not allocate itself (i.e. only constructors write it).
 
 import (
-	"sort"
 	"fmt"
 	"go/token"
 	"go/types"
+	"sort"
 	"strings"
 
 	"golang.org/x/tools/go/ssa"
